@@ -240,8 +240,10 @@ class Sched:
             os.makedirs(wd, exist_ok=True)
             cp, mp = os.path.join(wd, "traces.cases"), os.path.join(wd, "traces.model")
             with open(cp, "w") as f:
+                # a scenario may be judged against several models ("tr-call,tr-run"): every trace once per suite
+                exported = [dict(rec, suite=su) for rec in exported for su in self.conformance.split(",")]
                 for rec in exported:
-                    f.write("case %s %s\n" % (self.conformance, rec["config"]))
+                    f.write("case %s %s\n" % (rec["suite"], rec["config"]))
                     for t in rec["trace"]: f.write(t + "\n")
                     f.write("end\n")
             run_driver(cp, mp)
@@ -254,7 +256,7 @@ class Sched:
                     conforming += 1
                 elif len(out["k_bad"]) < 3:
                     out["k_bad"].append({"component": self.name, "kind": "correspondence", "scenario": self.scenario, "config": rec["config"], "schedule": [],
-                                         "problems": ["trace step %d does not conform to the Lean small-step model: %s" % (bad, ms[bad].split("\t")[0])],
+                                         "problems": ["trace step %d does not conform to the Lean small-step model (%s): %s" % (bad, rec["suite"], ms[bad].split("\t")[0])],
                                          "trace": ops[:bad + 1][-60:], "seed": ctx.seed})
             out["stats"]["k2_traces_checked"] = len(exported); out["stats"]["k2_traces_conforming"] = conforming; out["stats"]["k2_model_steps_matched"] = steps
             out["k2_traces_conforming"] = conforming
